@@ -68,7 +68,10 @@ Qed.
 Lemma step_MS_fast s t q s' : Inv s -> mpcs s t = MS_fast q -> mstep s t = Some s' -> Inv s'.
 Proof.
   intros I Hpc B. open_step I Hpc B T1 T2 T3 T4 T5 T6.
-  destruct (f_dispatch_queue_try_acquire_barrier_sync_and_suspend 0 t 0 1 (st (lane s))); try discriminate. injection B as <-.
+  assert (E : s' = set_mpc s t (MS_prep q)).
+  { destruct (lst (lane s)); [|injection B as <-; reflexivity].
+    destruct (f_dispatch_queue_try_acquire_barrier_sync_and_suspend 0 t 0 1 (st (lane s))); try discriminate. injection B as <-. reflexivity. }
+  subst s'.
   lane_idle T2 Hlp. apply Inv_ctl; try exact I; ctl_goals Hpc Hlp T3 T4.
 Qed.
 
